@@ -249,8 +249,18 @@ impl World {
         nodes::install_session_fab(self.admin.get(), SeededRng::new(20 + fab as u64), fab, NODE_ADMIN, NODE_DEV + fab as u64, la, ld, addr_of(1), &k2, &k1).map_err(|e| format!("{:?}", e.code()))?;
         nodes::install_session_fab(self.md(), SeededRng::new(40 + fab as u64), fab, NODE_DEV + fab as u64, NODE_ADMIN, ld, la, addr_of(0), &k1, &k2).map_err(|e| format!("{:?}", e.code()))?;
         self.case_sessions.push(fab);
+        // two more controllers of the same fabric hold sessions with the device (device side only)
+        let mut lds = vec![ld];
+        for extra in 1..=2u16 {
+            let (ka, kb) = (nodes::key(0xA0 + fab + extra as u8 * 8), nodes::key(0xB0 + fab + extra as u8 * 8));
+            let l = ld + 100 * extra;
+            nodes::install_session_fab(self.md(), SeededRng::new(60 + fab as u64 * 4 + extra as u64), fab, NODE_DEV + fab as u64, 0xC100 + extra as u64, l, l + 1000, addr_of(2 + extra as usize), &ka, &kb).map_err(|e| format!("{:?}", e.code()))?;
+            lds.push(l);
+        }
         if let Some(f) = memory_config(self.md()).iter().find(|x| x.idx == fab) {
-            self.incarnation.insert(ld, (fab, f.root, f.fabric_id));
+            for l in lds {
+                self.incarnation.insert(l, (fab, f.root, f.fabric_id));
+            }
         }
         Ok(())
     }
